@@ -6,6 +6,7 @@
 #include "drv_conv.hpp"
 #include <vector>
 #include <array>
+#include <sys/mman.h>
 
 namespace drv {
 
@@ -203,6 +204,34 @@ template <class ET, class M, int LAY, int ACC, class U> void run_acc(long caseno
     }
     o.field("rb", Out::list(rb));
   }
+  std::printf("%s\n", o.s.c_str());
+}
+
+// prog <mapping value tokens> nidx idx... : element type unsigned char over a lazily committed (MAP_NORESERVE) region,
+// spans above 2^31 elements; only element identities are taken (no page is touched except by the one write at the end)
+template <class M, int LAY, int ACC, class U> void run_acc_big(long caseno, Toks &tk) {
+  using ET = unsigned char;
+  tk.next();
+  std::printf("A %ld ", caseno); std::fflush(stdout);
+  const M m = read_mapping<M, LAY>(tk);
+  auto pts = read_points(m, tk);
+  const unsigned long long span = (unsigned long long)to_i128(m.required_span_size());
+  const size_t pad = 1 << 16;
+  const size_t len = (size_t)span + 2 * pad;
+  void *mem = mmap(nullptr, len, PROT_READ | PROT_WRITE, MAP_PRIVATE | MAP_ANONYMOUS | MAP_NORESERVE, -1, 0);
+  if (mem == MAP_FAILED) { std::printf("skip=1\n"); return; }
+  ET *base = static_cast<ET *>(mem) + pad;
+  auto md = ViewOf<ET, M, ACC>::make(base, m);
+  Out o;
+  access_forms<decltype(md), U>(o, md, pts, base);
+  if (!pts.empty()) {       // a write through the view at the last point lands in that element
+    constexpr size_t R = M::extents_type::rank();
+    std::array<typename M::index_type, R> a{}; for (size_t q = 0; q < R; ++q) a[q] = static_cast<typename M::index_type>(pts.back()[q]);
+    const long long off = (long long)to_i128(call_map(m, a, std::make_index_sequence<R>{}));
+    md_any(md, a, std::make_index_sequence<R>{}) = ET(77);
+    o.field("wr", base[off] == ET(77) ? "1" : "0");
+  }
+  munmap(mem, len);
   std::printf("%s\n", o.s.c_str());
 }
 
